@@ -11,11 +11,16 @@ _Bool __modeb_fresh(void **pp, unsigned long n) { *pp = __CPROVER_allocate(n, 0)
 #define MODEB_FRESH_ASSERT(p, n) __CPROVER_r_ok((p), (n))
 #define MODEB_FRESH_POST(p, n)   __CPROVER_r_ok((p), (n))
 #define RET __ret
-#define PTR_EQ(a, b) ((a) == (b))
+/* PTR_EQ is handled by c2h: assignment where assumed, equality where asserted */
 #else
 #define PTR_EQ(a, b) __CPROVER_pointer_equals((a), (b))
 #define IS_FRESH(p, n) __CPROVER_is_fresh((p), (n))
 #define RET __CPROVER_return_value
+#endif
+
+#define IMPLIES(a, b) (!(a) || (b))
+#ifndef MODE_B
+#define PROP(...)
 #endif
 
 #define F_NOTNULL 1
@@ -31,8 +36,8 @@ _Bool __modeb_fresh(void **pp, unsigned long n) { *pp = __CPROVER_allocate(n, 0)
 
 /* tag/flag part of validity: what every producer of a Value guarantees */
 #define VALID_TAG(v) (V_MAJOR(v) <= IMAGINARY && ((v)->_flags & ~(F_NOTNULL | F_LVALUE)) == 0 && \
-                      (V_IS(v, NO_TYPE) ==> V_ISNULL(v)) && \
-                      (V_IS(v, BOOLEAN) && !V_ISNULL(v) ==> (((v)->_value.i) & 0xff) <= 1))
+                      IMPLIES(V_IS(v, NO_TYPE), V_ISNULL(v)) && \
+                      IMPLIES(V_IS(v, BOOLEAN) && !V_ISNULL(v), (((v)->_value.i) & 0xff) <= 1))
 
 /* Kleene abstraction of a value in the boolean domain */
 #define K_F 0
